@@ -61,6 +61,9 @@ def holds(post, asg):
 
 
 def mk_lit(sm, l):
+    if ("u%d" % l[0]) in getattr(sm, "late_vars", ()):
+        x = pb.Literal("u%d" % l[0])  # a literal built by hand; its variable is registered with the manager later on
+        return x if l[1] else -x
     x = sm.newvar(l[0], "u")
     return x if l[1] else -x
 
@@ -187,9 +190,25 @@ def run_script(c):
         cls.append("history")
     # ---- the probed manager
     sm = S.SATManager()
-    users = [sm.newvar(i, "u") for i in range(nvars)]
+    late = c.get("late")
+    if late is not None and late < nvars:
+        sm.late_vars = {"u%d" % late}
+    else:
+        late = None
+    users = [sm.newvar(i, "u") if i != late else pb.Literal("u%d" % i) for i in range(nvars)]
     accepted = []
-    for p in c["posts"]:
+    for pi, p in enumerate(c["posts"]):
+        if late is None and pi in (c.get("solve_at") or ()):
+            # solving in between: the verdict is the one for what has been posted so far, and later posts still count
+            try:
+                mid = sm.solve()
+            except Exception as e:
+                raise Violation("solve() raised %s: %s after posts=%s" % (type(e).__name__, e, c["posts"][:pi]), "solve-raised")
+            want_mid = any(all(holds(q, dict(enumerate(bits))) for q in accepted) for bits in itertools.product((0, 1), repeat=nvars))
+            if bool(mid) != want_mid:
+                raise Violation("solve() after the first %d posts returned %r but they are %s; posts=%s" % (
+                    pi, mid, "satisfiable" if want_mid else "unsatisfiable", c["posts"][:pi]), "solve-verdict")
+            cls.append("solved-in-between")
         before = len(sm.clauses)
         try:
             post_to(sm, p)
@@ -252,6 +271,14 @@ def run_script(c):
                 raise Violation("brute force disagrees with the specification on %s; posts=%s" % (bits, c["posts"]), "cnf-brute")
         cls.append("brute-crosscheck")
     # ---- solve / value / evalexpr
+    if late is not None:
+        # the forgotten variable makes solve() fail; the user registers it and solves again: every posted constraint still counts
+        try:
+            sm.solve()
+        except Exception:
+            cls.append("solve-failed-on-a-variable-registered-afterwards")
+        sm.late_vars = set()
+        users[late] = sm.newvar(late, "u")
     try:
         res = sm.solve()
     except Exception as e:
@@ -370,11 +397,13 @@ def script_s(draw):
     for _ in range(draw(st.sampled_from([0, 0, 1, 2, 4]))):
         hn = 7
         history.append([pbpost(hn) for _ in range(draw(_i(1, 3)))])
-    return dict(nvars=nvars, posts=posts, history=history)
+    return dict(nvars=nvars, posts=posts, history=history, late=draw(_i(0, nvars - 1)) if draw(_i(0, 5)) == 0 else None,
+                solve_at=sorted({draw(_i(0, len(posts))) for _ in range(draw(_i(1, 2)))}) if draw(_i(0, 3)) == 0 else [])
 
 
 def subchecks():
     return [
         Sub("scripts", run_script, strategy=script_s(), n_quick=12000, n_thorough=300000, fuzz_thorough=6000,
-            required=("pb-robdd", "pb-robdd-decomp", "pb-clause-shortcut", "heule-depth2", "refused", "history", "sat", "unsat", "shared-subexpression", "same-inequality-object-used-again", "scaled-expression", "negative-multiple-of-a-negated-term", "exactly-one-from-one-list-chained")),
+            required=("pb-robdd", "pb-robdd-decomp", "pb-clause-shortcut", "heule-depth2", "refused", "history", "sat", "unsat", "shared-subexpression", "same-inequality-object-used-again", "scaled-expression", "negative-multiple-of-a-negated-term", "exactly-one-from-one-list-chained", "solved-in-between",
+                      "solve-failed-on-a-variable-registered-afterwards")),
     ]
